@@ -24,6 +24,8 @@ type HarnessRun struct {
 	Pkg      string // directory relative to the repo root ("" = root package)
 	PkgName  string
 	Files    []string // relative to /verif/harness
+	SymFiles []string // additional files for the symbolic side only (bodyless package-specific API)
+	NatFiles []string // additional files for the native replay only (the same API with bodies)
 	Entry    string
 	Params   map[string]int
 	Unwind   int
@@ -258,7 +260,7 @@ func cmdCheck(args []string) int {
 		eng := engines[key]
 		if eng == nil {
 			var files []string
-			for _, f := range run.Files {
+			for _, f := range append(append([]string{}, run.Files...), run.SymFiles...) {
 				files = append(files, filepath.Join(verifRoot(), "harness", f))
 			}
 			ov, err := harnessOverlay(repo, run.Pkg, run.PkgName, files)
@@ -343,7 +345,7 @@ func cmdCheck(args []string) int {
 				inconclusive = append(inconclusive, fmt.Sprintf("%s: no model for violation %s", rr.run.Name, v.Label))
 				continue
 			}
-			tape := &replayTape{Property: id, Harness: rr.run.Entry, Pkg: rr.run.Pkg, PkgName: rr.run.PkgName, Files: rr.run.Files,
+			tape := &replayTape{Property: id, Harness: rr.run.Entry, Pkg: rr.run.Pkg, PkgName: rr.run.PkgName, Files: append(append([]string{}, rr.run.Files...), rr.run.NatFiles...),
 				Params: rr.run.Params, Draws: v.Draws, Expect: v.Label, Kind: v.Kind, Msg: v.Msg, Runs: rr.run.ReplayRuns}
 			name := fmt.Sprintf("%s-%s-%s.json", id, rr.run.Name, sanitize(v.Label))
 			tapePath := filepath.Join(verifRoot(), "replays", name)
